@@ -2075,6 +2075,89 @@ fn exec_history(case: &Value) -> Exec {
     ex
 }
 
+/// Recycle counts: small, around 2^8 and around 2^16 (2^32 is out of reach of any test).
+const RECYCLE_COUNTS: [u64; 17] = [1, 2, 3, 127, 128, 254, 255, 256, 257, 258, 511, 512, 65534, 65535, 65536, 65537, 131072];
+const RECYCLE_QUICK_BIG: [u64; 3] = [65535, 65536, 65537];
+
+/// History: object A gets two handles, loses its root and is collected (the handles go stale); its slot is
+/// then recycled n-1 more times through short-lived objects; finally tenant B moves in (rooted, value 42)
+/// and the stale handles are used in the ways Rust itself may use them (drop / clone+drop / guard+unguard).
+fn recycle_history(n: u64, variant: u64) -> Vec<Op> {
+    let mut ops = vec![Op::NewGuard, Op::Alloc(0), Op::CloneH(0), Op::Write(0, 7), Op::DropGuard(0), Op::Collect];
+    // guards: 0 used; handles: 0,1 (both stale now)
+    let mut g = 1usize;
+    let mut h = 2usize;
+    for _ in 1..n {
+        ops.push(Op::NewGuard);
+        ops.push(Op::Alloc(g));
+        ops.push(Op::DropH(h));
+        ops.push(Op::DropGuard(g));
+        ops.push(Op::Collect);
+        g += 1;
+        h += 1;
+    }
+    ops.push(Op::NewGuard);
+    ops.push(Op::Alloc(g));
+    let hb = h;
+    ops.push(Op::Write(hb, 42));
+    match variant {
+        0 => {
+            ops.push(Op::DropH(0));
+            ops.push(Op::DropH(1));
+        }
+        1 => {
+            ops.push(Op::CloneH(0)); // handle hb+1 (stale clone)
+            ops.push(Op::DropH(hb + 1));
+            ops.push(Op::DropH(0));
+            ops.push(Op::DropH(1));
+        }
+        2 => {
+            ops.push(Op::GuardClone(g, 0));
+            ops.push(Op::Unguard(g, 0));
+            ops.push(Op::DropH(0));
+            ops.push(Op::DropH(1));
+        }
+        _ => {
+            ops.push(Op::Unguard(g, 1));
+            ops.push(Op::DropH(1));
+            ops.push(Op::DropH(0));
+        }
+    }
+    // B must still be there: clone + drop a valid handle, collect, allocate a neighbour
+    ops.push(Op::CloneH(hb));
+    ops.push(Op::Collect);
+    ops.push(Op::Alloc(g));
+    ops.push(Op::Collect);
+    ops
+}
+
+fn exec_recycle(case: &Value) -> Exec {
+    let n = case["n"].as_u64().unwrap_or(1);
+    let variant = case["variant"].as_u64().unwrap_or(0);
+    let ops = recycle_history(n, variant);
+    let churn_end = 6 + 5 * (n.saturating_sub(1)) as usize;
+    dying::note_history(&format!("recycle n={} variant={}", n, variant), 0);
+    // the churn itself is plain alloc/collect traffic: it is checked in full when short, unchecked when long
+    let r = run_history(&ops, 0, Checks::Periodic, if n > 600 { churn_end } else { 0 });
+    let mut ex = match r.failure {
+        Some((at, f)) => {
+            let shown = ops.get(at).map(|o| {
+                let mut s = String::new();
+                o.render(&mut s);
+                s
+            });
+            let mut e = Exec::fail(f.sig, format!("slot recycled {} times, stale-handle use variant {}: after op #{} ({}): {}", n, variant, at, shown.unwrap_or_else(|| "end of history".into()), f.msg));
+            e.repro = Some(json!({"kind": "recycle", "n": n, "variant": variant}));
+            e
+        }
+        None => Exec::pass(r.reuses > 0),
+    };
+    ex.tags = vec![format!("recycle:n={}", n), format!("recycle:variant={}", variant), "slot-reuse".into()];
+    ex.observed = json!({"ops": ops.len(), "collections": r.collections, "slot_reuses": r.reuses, "skipped_ops": r.skipped});
+    ex.counters = vec![("ops_executed".into(), ops.len() as u64), ("slot_reuses".into(), r.reuses), ("collections".into(), r.collections), ("ops_skipped_by_executor".into(), r.skipped)];
+    ex
+}
+
 fn exec_enumeration(case: &Value, ctx: &Ctx) -> Exec {
     let tier = if case["tier"].as_str() == Some("thorough") { Tier::Thorough } else { Tier::Quick };
     let stale_gated = ctx.gates.excluded(GATE_STALE_AFTER_REUSE);
@@ -2127,7 +2210,7 @@ impl Property for C13Prop {
     fn rule(&self) -> String {
         "Cases are operation histories over the public Heap/Guard/Gc API (payload Node{value, refs}); ops: ng new guard, dg drop guard, al alloc, ln/ul link/unlink, gc/gm guard (clone/move), ug unguard, cl clear, ch/dh clone/drop handle, ld load a link into a handle, wr write payload, co collect, th set threshold, hc/hd clone/drop heap. \
          Enumerated part: breadth-first over ABSTRACT model states (model state + predicted slot assignment + free-list order; handles of one object and guards interchangeable; payload abstracted to zero/non-zero) with <=3 live guards, <=4 objects, <=2 handles and <=2 links per object, <=3 roots per guard, thresholds {0,1,2,default}, from the empty heap (depth 5 quick / 7 thorough) and from four start configurations (pair a->b: depth 5/6; chain of 3 with only the head rooted: 4/5; free slot with two stale handles: 6/8; object shared by two guards with threshold 2: 4/5); every (state, enabled op) pair is executed as its own history on a fresh heap, so each enumerated evaluation is a distinct history; subtrees are dealt to the 16 shards after 2 levels (contiguous blocks of the sorted frontier) and de-duplicated per shard, so different shards may reach the same abstract state through different histories. \
-         Random part: tape-driven histories of up to 10000 ops (macros: bursts of 1..500 allocations wired as chain/ring/star/tree, unroot+collect, guard churn of up to 24 guards, automatic collections through small thresholds, stale-handle clone/drop/guard/unguard, resurrect before a collection, heap dropped while guards and handles remain), distinct by rendered text. \
+         Slot-recycling family (fixed cases): two handles of an object go stale, the slot is recycled n times through short-lived objects for n in {1,2,3,127,128,254..258,511,512,65534..65537,131072} (quick: 2^16 neighbours 65535..65537 only), then a rooted tenant with payload 42 moves in and the stale handles are dropped / cloned+dropped / guarded+unguarded / unguarded before the tenant is re-read - the widths at which a slot generation stamp could wrap. Random part: tape-driven histories of up to 10000 ops (macros: bursts of 1..500 allocations wired as chain/ring/star/tree, unroot+collect, guard churn of up to 24 guards, automatic collections through small thresholds, stale-handle clone/drop/guard/unguard, resurrect before a collection, heap dropped while guards and handles remain), distinct by rendered text. \
          Non-trivial: the history contains a collection that reclaims >=1 object while >=1 survivor is reachable only through a link path of length >=2, or an allocation that re-uses a slot.".into()
     }
     fn assumptions(&self) -> Vec<String> {
@@ -2166,6 +2249,20 @@ impl Property for C13Prop {
                 cases.push(json!({"kind": "enum-subtree", "tier": ctx.tier.name(), "prefix": render_ops(&path), "depth": rem}));
             }
         }
+        // slot-recycling family: a stale handle is kept while its slot is recycled n times (n around the
+        // widths a generation stamp could have), then used while the slot has a live tenant
+        let mut k = 0usize;
+        for &n in RECYCLE_COUNTS.iter() {
+            if n > 1000 && ctx.tier == Tier::Quick && !RECYCLE_QUICK_BIG.contains(&n) {
+                continue;
+            }
+            for variant in 0..4u64 {
+                if k % ctx.nshards.max(1) == ctx.shard {
+                    cases.push(json!({"kind": "recycle", "n": n, "variant": variant}));
+                }
+                k += 1;
+            }
+        }
         cases
     }
     fn generate(&self, tape: &mut Tape, ctx: &Ctx) -> Value {
@@ -2194,6 +2291,7 @@ impl Property for C13Prop {
     fn execute(&self, case: &Value, ctx: &mut Ctx) -> Exec {
         match case["kind"].as_str() {
             Some("enum-levels") | Some("enum-subtree") => exec_enumeration(case, ctx),
+            Some("recycle") => exec_recycle(case),
             _ => exec_history(case),
         }
     }
